@@ -15,9 +15,14 @@
 (*   (so that cycles can be expressed; a node instance is the path of      *)
 (*   child positions from the root, i.e. the unfolding):                   *)
 (*   DetVisit   explicit stack, pre-order, container-depth counter         *)
-(*   RndVisit   queue of (path, depth); dequeue, visit, then merge the     *)
-(*              node's children (any order for object members) into the    *)
-(*              queue at arbitrary positions preserving both orders.       *)
+(*   RndVisit   first a depth PROBE (explicit stack over containers only,   *)
+(*              last child first - what _check_depth does), then a queue   *)
+(*              of (path, depth); dequeue, visit, then merge the node's    *)
+(*              children (any order for object members) into the queue at  *)
+(*              arbitrary positions preserving both orders.  Without the   *)
+(*              probe a too-deep instance is dequeued only after the       *)
+(*              shallower levels: 2^limit steps on a cyclic graph with two *)
+(*              container children (T8d_Linear refutes that variant).      *)
 (*   Every random choice is an explicit \E.                                *)
 (***************************************************************************)
 EXTENDS DescentDefs
@@ -27,8 +32,10 @@ CONSTANTS Graphs,      \* set of [kids: [Id -> Seq(Id)], obj: [Id -> BOOLEAN], r
           Limits,      \* set of max_recursion_depth values
           Modes        \* subset of {"det", "rnd"}
 
-VARIABLES g, limit, mode, work, out, status
-dvars == <<g, limit, mode, work, out, status>>
+VARIABLES g, limit, mode, work, out, status,
+          pstack,      \* rnd: the stack of the depth probe (top = head)
+          probes       \* number of probe steps taken (for the time bound)
+dvars == <<g, limit, mode, work, out, status, pstack, probes>>
 
 IsCont(id)  == g.cont[id]
 \* a node instance is the path of child POSITIONS from the root (the unfolding of the graph)
@@ -40,7 +47,8 @@ DepthOf(p)  == Len(p) + 1                      \* container depth of the instanc
 
 DInit == /\ g \in Graphs /\ limit \in Limits /\ mode \in Modes
          /\ work = <<<<>>>>                    \* det: stack (top = head); rnd: queue; holds the root instance
-         /\ out = <<>> /\ status = "run"
+         /\ out = <<>> /\ status = (IF mode = "rnd" THEN "probe" ELSE "run")
+         /\ pstack = <<<<>>>> /\ probes = 0
 
 \* deterministic: depth-first pre-order over containers only; selectors see scalars as children
 DetStep ==
@@ -51,7 +59,23 @@ DetStep ==
            ELSE /\ out' = Append(out, p)
                 /\ work' = SelectSeq(KidsOf(p), LAMBDA c : IsCont(Target(c))) \o Tail(work)
                 /\ status' = "run"
-    /\ UNCHANGED <<g, limit, mode>>
+    /\ UNCHANGED <<g, limit, mode, pstack, probes>>
+
+RECURSIVE Rev(_)
+Rev(sq) == IF sq = <<>> THEN <<>> ELSE Append(Rev(Tail(sq)), Head(sq))
+
+\* randomised, phase 1: _check_depth - pop an instance; a scalar is dropped; a container beyond the limit raises; otherwise its
+\* container children are pushed in order (so the LAST one is popped next)
+RndProbe ==
+    /\ mode = "rnd" /\ status = "probe"
+    /\ IF pstack = <<>> THEN status' = "run" /\ UNCHANGED <<pstack, probes>>
+       ELSE LET p == Head(pstack)
+            IN  /\ probes' = probes + 1
+                /\ IF ~IsCont(Target(p)) THEN pstack' = Tail(pstack) /\ status' = "probe"
+                   ELSE IF DepthOf(p) > limit THEN status' = "raised" /\ UNCHANGED pstack
+                   ELSE /\ pstack' = Rev(SelectSeq(KidsOf(p), LAMBDA c : IsCont(Target(c)))) \o Tail(pstack)
+                        /\ status' = "probe"
+    /\ UNCHANGED <<g, limit, mode, work, out>>
 
 \* all order-preserving merges of two sequences
 RECURSIVE Merges(_, _)
@@ -69,12 +93,12 @@ RndStep ==
                 /\ \E kids \in (IF g.obj[Target(p)] THEN PermsOf(KidsOf(p)) ELSE {KidsOf(p)}) :
                       \E m \in Merges(Tail(work), kids) : work' = m
                 /\ status' = "run"
-    /\ UNCHANGED <<g, limit, mode>>
+    /\ UNCHANGED <<g, limit, mode, pstack, probes>>
 
 Finish == /\ status = "run" /\ work = <<>> /\ status' = "done"
-          /\ UNCHANGED <<g, limit, mode, work, out>>
+          /\ UNCHANGED <<g, limit, mode, work, out, pstack, probes>>
 
-DNext == DetStep \/ RndStep \/ Finish
+DNext == DetStep \/ RndProbe \/ RndStep \/ Finish
 DSpec == DInit /\ [][DNext]_dvars /\ WF_dvars(DNext)
 
 Terminated == status \in {"done", "raised"}
@@ -93,6 +117,16 @@ NestingOfG(gr, cap) == IF gr.cont[gr.root] THEN DeepFrom(gr, <<gr.root>>, cap) E
 \* T8d: raised iff the container nesting exceeds the limit, in both modes
 T8d_Outcome ==
     Terminated => (status = "raised" <=> (NestingOfG(g, limit) > limit \/ (mode = "det" /\ limit < 1)))
+
+\* T8d, bounded time in terms of the LIMIT: on a graph whose unfolding is infinite (a cycle through containers is reachable: the
+\* nesting exceeds the number of ids) the error is raised after at most LinK * (limit + 1) steps of the machine, in both modes, and
+\* nothing the size of 2^limit is ever held (stack / queue lengths likewise).  LinK depends on the graph size only.
+Cyclic(gr) == NestingOfG(gr, Len(gr.kids)) > Len(gr.kids)
+T8d_LinearK(k) ==
+    Cyclic(g) => /\ Len(out) + probes <= k * (limit + 1)
+                 /\ Len(work) + Len(pstack) <= k * (limit + 1)
+\* in nondeterministic mode the verdict comes before any node is visited
+T8d_ProbeFirst == (mode = "rnd" /\ status = "raised") => out = <<>>
 
 \* T8a / T8b on acyclic graphs: a completed run visited every instance once, parents first, array order kept
 Visited == {out[k] : k \in 1..Len(out)}
